@@ -101,7 +101,9 @@ def execute(sc, ctx):
     before = snapshot(G)
     src = ctx.source("perc", sc.get("policy"))
     for phi in sc["phis"]:
-        st, S = ctx.call(src, bond_percolate, G, phi, budget=10000, label=f"percolate[{phi!r}]")
+        # decision budget scales with the input: one draw per edge is what the helper needs; 4x + slack is generous,
+        # and exhausting it means "no result" (a fixed 10000 false-alarmed on graphs with more than 10000 edges)
+        st, S = ctx.call(src, bond_percolate, G, phi, budget=4 * G.number_of_edges() + 1000, label=f"percolate[{phi!r}]")
         if st != "ok":
             ctx.violate(f"{P}.raised", f"bond_percolate(phi={phi!r}): {st} {describe_exc(S) if st == 'raised' else ''}")
             return
